@@ -332,7 +332,7 @@ def oracle_case(case, obs):
         for m in msgs:
             kind, _, rest = m.partition(": ")
             kind = kind.split("(")[0].split("[")[0].strip()
-            out.append({"what": f"{kind}: after step {i}: {m}", "finding": None})
+            out.append({"what": f"{kind}: after step {i}: {rest if m.startswith(kind + ': ') else m}", "finding": None})
 
     for i, (st, o) in enumerate(zip(case["steps"], obs["steps"])):
         if o.get("crash"):
@@ -342,6 +342,8 @@ def oracle_case(case, obs):
         for q, g in zip(st.get("q", []), o["q"]):
             if isinstance(g, str) and g.startswith("CRASH:"):
                 add(i, [f"crash: query {q['k']} raised {g[6:]}"])
+        if o.get("crash"):
+            break       # an observer raised: nothing after this point is comparable
         if st["op"] == "u":
             acc = sm.update(st["t"], st["v"])
             if acc == o["rej"]:
@@ -457,6 +459,12 @@ def gen_case(rng, nq_lo=2, nq_hi=4, maxlen=40, caps=None):
     style = rng.choice(["mixed", "mixed", "mixed", "inorder", "gappy", "jumpy"])
     newest = None
     nextv = 10
+    hows = ["dump", "dump", "pickle", "deepcopy"]
+
+    def rt_step():
+        return {"op": "rt", "how": rng.choice(hows), "q": gen_queries(rng, case, newest, 2)}
+    if rng.random() < 0.2:          # copy the buffer BEFORE anything was written to it
+        case["steps"].append(rt_step())
     for _ in range(n):
         if newest is None:
             k = (T0 - a) // p + rng.randrange(0, 50)
@@ -492,13 +500,16 @@ def gen_case(rng, nq_lo=2, nq_hi=4, maxlen=40, caps=None):
             v = "nan"
         t = a + k * p + off_choice(rng, p)
         kk = rslot(t, p, a)
-        if newest is None or kk >= newest - cap + 1:
+        rejected = newest is not None and kk < newest - cap + 1
+        far = newest is None or kk - newest >= cap
+        if not rejected:
             newest = kk if newest is None else max(newest, kk)
         step = {"op": "u", "t": t, "v": v}
         step["q"] = gen_queries(rng, case, newest, rng.randint(nq_lo, nq_hi))
         case["steps"].append(step)
-        if rng.random() < 0.02:
-            case["steps"].append({"op": "rt", "q": gen_queries(rng, case, newest, 2)})
+        # copies at every kind of point: anywhere, and preferably right after a reject / a far jump
+        if rng.random() < (0.3 if (rejected or far) else 0.05):
+            case["steps"].append(rt_step())
     return case
 
 
@@ -531,6 +542,21 @@ def boundary_cases():
             U(0, None), U(1, 11), U(2, "nan"),
             U(3, 13, q=[{"k": "ai", "i": 0}, {"k": "ai", "i": 1}, {"k": "ai", "i": 3}, {"k": "ai", "i": -4},
                         {"k": "ai", "i": -3}, {"k": "wi", "s": None, "e": None, "fill": "nan"}])]})
+    # copies (serialization.dump/load, pickle, deepcopy) of a NEVER-updated buffer, after a rejected
+    # update, after a far jump, with gaps present: the copy must go on exactly like the original
+    p, a = 1_000_000, 0
+    for kind in ("list", "numpy", "mw"):
+        for how in ("dump", "pickle", "deepcopy"):
+            full = [{"k": "wi", "s": None, "e": None, "fill": "nan"}, {"k": "ai", "i": 0}, {"k": "ai", "i": -1},
+                    {"k": "wt", "s": a + (B - 3) * p + 400_000, "e": a + (B + 9) * p, "fill": -5}]
+            RT = {"op": "rt", "how": how, "q": full}
+            out.append({"cap": 4, "period": p, "align": a, "kind": kind, "steps": [
+                dict(RT), U(0, 10, q=full), U(1, None, q=full), dict(RT), U(-9, 11, q=full), dict(RT),
+                U(3, 13, q=full), dict(RT), U(2, 12, q=full), U(20, 14, q=full), dict(RT), U(19, "nan", q=full),
+                U(21, 15, q=full)]})
+            out.append({"cap": 1, "period": p, "align": a, "kind": kind, "steps": [
+                dict(RT), dict(RT), U(0, None, q=full), dict(RT), U(0, 10, q=full), U(5, 11, q=full), dict(RT),
+                U(5, None, q=full), U(4, 9, q=full), dict(RT), U(6, 12, q=full)]})
     # count_covered with a period that is not a binary fraction (3 * 0.1 s // 0.1 s)
     p = 100_000
     B = T0 // p
@@ -569,6 +595,12 @@ def small_scope_cases():
                              {"k": "ai", "i": 0}, {"k": "ai", "i": -1}, {"k": "ai", "i": 1}]
                         steps.append({"op": "u", "t": k * p, "v": v, "q": q})
                     out.append({"cap": cap, "period": p, "align": a, "kind": "list", "steps": steps})
+                    if n <= 3:       # the same history with a copy of the buffer taken at each position
+                        for pos in range(n + 1):
+                            how = ("dump", "pickle", "deepcopy")[(pos + n + miss) % 3]
+                            rt = {"op": "rt", "how": how, "q": steps[0]["q"][:1] + steps[0]["q"][2:4]}
+                            out.append({"cap": cap, "period": p, "align": a, "kind": ("list", "numpy")[pos % 2],
+                                        "steps": steps[:pos] + [rt] + steps[pos:]})
     return out
 
 
@@ -643,7 +675,8 @@ def c_query(q):
 
 def c_obs(o):
     gaps = "[" + "; ".join(f"({cZ(rel(g[0]))}, {cZ(rel(g[1]))})" for g in o["gaps"]) + "]"
-    return (f"(mkObs {'true' if o['rej'] else 'false'} {cZ(o['cv'])} {cZ(o['cc'])} {copt(rel(o['old']))} {copt(rel(o['new']))} "
+    cv = -1 if o.get("crash") else o["cv"]       # an unexpected exception never agrees with the model
+    return (f"(mkObs {'true' if o['rej'] else 'false'} {cZ(cv)} {cZ(o['cc'])} {copt(rel(o['old']))} {copt(rel(o['new']))} "
             f"{gaps} {clist(o['cells'], c_cell)} {copt(rel(o['bn']))})")
 
 
@@ -732,9 +765,17 @@ class RingStream(Stream):
         p, a, cap = case["period"], case["align"], obs["cap"]
         newest = None
         seen = set()
+        prev_kind = None
         for st, o in zip(case["steps"], obs["steps"]):
             if st["op"] == "rt":
-                seen.add("serialization_round_trip")
+                seen.add("copy_" + st.get("how", "dump"))
+                if newest is None:
+                    seen.add("copy_before_first_update")
+                elif prev_kind:
+                    seen.add("copy_right_after_" + prev_kind)
+                if o["gaps"]:
+                    seen.add("copy_with_gaps_present")
+                prev_kind = None
                 continue
             k = rslot(st["t"], p, a)
             off = st["t"] - (a + k * p)
@@ -759,6 +800,7 @@ class RingStream(Stream):
                     seen.add("update_oldest_slot")
                 else:
                     seen.add("update_out_of_order")
+            prev_kind = "reject" if o["rej"] else ("far_jump" if (newest is None or k - newest >= cap) else "update")
             if not o["rej"]:
                 newest = k if newest is None else max(newest, k)
             if len(o["gaps"]) >= 2:
